@@ -23,6 +23,7 @@ extern MPT_STRUCT(node) *mpt_node_assign(MPT_STRUCT(node) **base, const MPT_STRU
 	MPT_STRUCT(path) path = *dest;
 	MPT_INTERFACE(metatype) *mt;
 	MPT_STRUCT(node) *conf;
+	MPT_STRUCT(node) *made = 0, **made_base = 0;
 	const char *curr;
 	int clen;
 	
@@ -61,6 +62,11 @@ extern MPT_STRUCT(node) *mpt_node_assign(MPT_STRUCT(node) **base, const MPT_STRU
 		} else {
 			mpt_gnode_add(first, 0, next);
 		}
+		/* first element created by this call: start of what a failure takes back */
+		if (!made) {
+			made = next;
+			made_base = base;
+		}
 		/* final element */
 		if (!path.len) {
 			next->_meta = mt;
@@ -71,6 +77,14 @@ extern MPT_STRUCT(node) *mpt_node_assign(MPT_STRUCT(node) **base, const MPT_STRU
 		base = &next->children;
 		curr = path.base + path.off;
 		continue;
+	}
+	/* failed assignment leaves no partial path */
+	if (made) {
+		if (*made_base == made) {
+			*made_base = 0;
+		}
+		mpt_node_unlink(made);
+		mpt_node_destroy(made);
 	}
 	if (mt) {
 		mt->_vptr->unref(mt);
